@@ -101,6 +101,12 @@ class GradOracle:
     def F(self):
         m = self.model
         Xb, Ab, ids = self.h.resolve()
+        # the objective is that of the model's predictions on the TRUE rows of the samples of the batch (the caller's
+        # data), not on whatever array the training loop chose to forward (KernelRIM forwards kernel rows by design)
+        Xc = getattr(self.world, "current_X", None)
+        if Xc is not None and self.cfg["family"] != "KernelRIM" and not any(i < 0 for i in ids) \
+                and np.ndim(Xc) == 2 and np.ndim(Xb) == 2 and Xc.shape[1] == Xb.shape[1] and max(ids, default=0) < len(Xc):
+            Xb = np.asarray(Xc, dtype=np.float64)[ids]
         P = m._infer(Xb, retain=False)
         eps = float(getattr(self.h.sim_gemini.real, "epsilon", 1e-12)) if self.h.sim_gemini is not None else 1e-12
         if eps > 1e-9 and (P.min() < eps or P.max() > 1 - eps):
